@@ -14,13 +14,27 @@ pub enum Site {
     Witness(usize),
     KConst(usize),
     Gate(usize, u8),
+    /// several wires of one gate at once (index into GATE2_KINDS)
+    Gate2(usize, usize),
 }
+
+/// (sign of the shift on l, r, o; recompute o = l*r afterwards)
+pub const GATE2_KINDS: [([i8; 3], bool, &str); 7] = [
+    ([1, -1, 0], false, "l+d,r-d"),
+    ([1, 1, 0], false, "l+d,r+d"),
+    ([1, 0, 1], false, "l+d,o+d"),
+    ([0, 1, -1], false, "r+d,o-d"),
+    ([1, 1, 1], false, "l+d,r+d,o+d"),
+    ([1, -1, 0], true, "l+d,r-d,o=l*r"),
+    ([1, 1, 0], true, "l+d,r+d,o=l*r"),
+];
 impl Site {
     pub fn json(&self) -> Value {
         match self {
             Site::Witness(i) => json!({"kind": "witness", "index": i}),
             Site::KConst(k) => json!({"kind": "constant", "index": k}),
             Site::Gate(g, f) => { let fl = ["l", "r", "o"][*f as usize]; json!({"kind": "gate", "index": g, "field": fl}) }
+            Site::Gate2(g, k) => json!({"kind": "gate2", "index": g, "field": GATE2_KINDS[*k].2}),
         }
     }
     pub fn from_json(v: &Value) -> Site {
@@ -28,6 +42,7 @@ impl Site {
         match v["kind"].as_str().unwrap() {
             "witness" => Site::Witness(i),
             "constant" => Site::KConst(i),
+            "gate2" => Site::Gate2(i, GATE2_KINDS.iter().position(|k| Some(k.2) == v["field"].as_str()).unwrap()),
             _ => Site::Gate(i, ["l", "r", "o"].iter().position(|x| Some(*x) == v["field"].as_str()).unwrap() as u8),
         }
     }
@@ -36,6 +51,11 @@ impl Site {
             Site::Witness(i) => Dev::Witness { idx: *i, delta },
             Site::KConst(k) => Dev::KConst { k: *k, delta, both: true },
             Site::Gate(g, f) => Dev::Gate { gate: *g, field: *f, delta },
+            Site::Gate2(g, k) => {
+                let sg = |x: i8| if x > 0 { delta } else if x < 0 { -delta } else { F::zero() };
+                let (signs, rec, _) = GATE2_KINDS[*k];
+                Dev::GateVec { gate: *g, d: [sg(signs[0]), sg(signs[1]), sg(signs[2])], recompute_o: rec }
+            }
         }
     }
 }
@@ -52,6 +72,9 @@ pub fn sites(p: &Program) -> Vec<Site> {
     for i in 0..g {
         for f in 0..3 {
             out.push(Site::Gate(i, f));
+        }
+        for k in 0..GATE2_KINDS.len() {
+            out.push(Site::Gate2(i, k));
         }
     }
     out
@@ -134,6 +157,13 @@ pub fn cases(tier: Tier) -> (Vec<Case>, Value) {
     for p in &all {
         for s in sites(p) {
             for d in 0..3 {
+                // multi-wire gate patterns: one delta (rho) in the quick tier, two in the thorough tier
+                if matches!(s, Site::Gate2(..)) && (d == 1 || (d == 0 && tier == Tier::Quick)) {
+                    continue;
+                }
+                if tier == Tier::Quick && d == 1 {
+                    continue;
+                }
                 match tier {
                     Tier::Quick => {
                         out.push(Case { curve: CURVES[idx % 3], prog: p.clone(), site: s.clone(), delta: d });
@@ -153,7 +183,7 @@ pub fn cases(tier: Tier) -> (Vec<Case>, Value) {
         }
     }
     let b = json!({"program_space": desc, "size_family": format!("S({})", sn), "programs": all.len(),
-        "sites": "every witness input (C value, A value, M inputs; both phases) shifted on the prover only; every explicit constraint constant shifted on both roles; every gate x {l,r,o} overwritten through hook H1",
+        "sites": "every witness input (C value, A value, M inputs; both phases) shifted on the prover only; every explicit constraint constant shifted on both roles; every gate x {l,r,o} overwritten through hook H1; every gate x 7 multi-wire patterns (opposite / equal shifts on two wires, with and without a recomputed output)",
         "deltas": DELTA_NAMES});
     (out, b)
 }
@@ -184,6 +214,7 @@ pub fn main(o: &Opts) -> i32 {
                 Site::Witness(_) => "witness",
                 Site::KConst(_) => "constant",
                 Site::Gate(..) => "gate",
+                Site::Gate2(..) => "gate2",
             };
             match r {
                 None => skipped += 1,
